@@ -35,6 +35,9 @@ type genCfg struct {
 	getErrW    int     // reads that fail because the merge operator refuses
 	bgRefuseW  int     // the operator refuses the next merge of a background task
 	idle       float64 // probability that the idle merger is enabled
+	burst      float64 // probability of an ingest burst: the merger is held up (slow OnEvent callback) while several batches pile up
+	stallW     int     // weight of the stallMerger op among the random ops
+	wide       float64 // probability of batches of several hundred keys (the kvs array of a segment outgrows a page)
 	tinyDirty  float64
 	finalClose bool
 }
@@ -83,7 +86,7 @@ func Gen(prop string, seed uint64, index int, tier string) *Case {
 
 func propCfg(prop string) genCfg {
 	base := genCfg{backings: []string{"mem", "store", "store", "mapll"}, maxOps: 30, concerns: []int{0, 1, 2},
-		batchW: 50, verifyW: 12, drainW: 4, idleW: 16, notifyW: 6, clockW: 3, idle: 0.2, tinyDirty: 0.15}
+		batchW: 50, verifyW: 12, drainW: 4, idleW: 16, notifyW: 6, clockW: 3, idle: 0.2, tinyDirty: 0.15, burst: 0.12, stallW: 2, wide: 0.04}
 	switch prop {
 	case "C01":
 		base.flags = []string{"verifyEach", "finalVerify"}
@@ -121,6 +124,7 @@ func propCfg(prop string) genCfg {
 		base.merges = 0.3
 		base.partial = 0.3
 		base.longHist = 0.02
+		base.wide = 0.08
 	case "C08":
 		base.flags = []string{"verifyEach", "storeEach", "finalVerify", "finalReopen"}
 		base.merges = 1
@@ -128,6 +132,7 @@ func propCfg(prop string) genCfg {
 		base.reopen = 3
 		base.drainW = 8
 		base.bgRefuseW = 4
+		base.wide = 0.08
 	case "C09":
 		base.flags = []string{"finalVerify"}
 		base.iterW = 30
@@ -586,6 +591,106 @@ func genSingle(c *Case, r *simrt.Rand, cfg genCfg) {
 			}
 		}
 	}
+	if !partial && r.Chance(cfg.burst) {
+		// Ingest burst: the application's OnEvent callback is slow once (the
+		// merger is held up at the end of a cycle) while a big batch and a few
+		// small ones are executed; the next cycle ingests them together, which
+		// is what partial in-memory merges (several segments left in the dirty
+		// mid / handed to the persister at once) need.
+		if c.Opts.MaxPreMergerBatches != 0 && c.Opts.MaxPreMergerBatches < 10 {
+			c.Opts.MaxPreMergerBatches = 10
+		}
+		c.Opts.MaxDirtyOps, c.Opts.MaxDirtyKeyValBytes = 0, 0
+		if r.Chance(0.3) {
+			c.Opts.MinMergePercentage = pick(r, []float64{0, 0.5, 5})
+		}
+		if r.Chance(0.4) {
+			c.Prog = append(c.Prog, Op{Kind: "batch", B: g.batch()})
+			if c.Opts.Backing != "mem" && r.Chance(0.5) {
+				c.Prog = append(c.Prog, Op{Kind: "drain"})
+			}
+		}
+		c.Prog = append(c.Prog, Op{Kind: "stallMerger", N: pick(r, []int{3000, 10000, 30000})})
+		if r.Chance(0.6) {
+			// a tiny batch sets the cycle off that ends in the slow callback
+			g.seq++
+			c.Prog = append(c.Prog, Op{Kind: "batch", B: &BatchSpec{Ops: []KV{{Op: "set", K: g.pool[0], V: []byte(fmt.Sprintf("v%d.0", g.seq))}}}})
+		}
+		big := g.bigBatch(pick(r, []int{12, 40}))
+		if g.merges {
+			// every other key of the big batch is a Merge
+			for i := range big.Ops {
+				if i%2 == 1 {
+					big.Ops[i].Op = "merge"
+				}
+			}
+		}
+		c.Prog = append(c.Prog, Op{Kind: "batch", B: big})
+		for i, nb := 0, 2+r.Intn(3); i < nb; i++ {
+			var b *BatchSpec
+			if r.Chance(0.5) {
+				b = g.batch()
+			} else {
+				// one or two operations on keys of the big batch
+				g.seq++
+				b = &BatchSpec{}
+				for j, no := 0, 1+r.Intn(2); j < no; j++ {
+					kv := KV{K: g.pool[(i*2+j)%len(g.pool)]}
+					switch x := r.Intn(10); {
+					case x < 4:
+						kv.Op = "del"
+					case x < 7 && g.merges:
+						kv.Op, kv.V = "merge", []byte(fmt.Sprintf("b%d.%d", g.seq, j))
+					default:
+						kv.Op, kv.V = "set", []byte(fmt.Sprintf("v%d.%d", g.seq, j))
+					}
+					if j == 1 && string(kv.K) == string(b.Ops[0].K) {
+						continue
+					}
+					b.Ops = append(b.Ops, kv)
+				}
+			}
+			c.Prog = append(c.Prog, Op{Kind: "batch", B: b})
+		}
+		if r.Chance(0.3) {
+			c.Prog = append(c.Prog, Op{Kind: "verify"})
+		}
+	}
+	if r.Chance(cfg.wide) {
+		// Wide batches: 257-700 keys of a family of their own, so that the
+		// kvs array of a segment (16 bytes per operation) is longer than a
+		// page, in memory, persisted and compacted.  With a merge operator most
+		// of them are Merge operations that reach the store unresolved.
+		wideBatch := func(n, from int) *BatchSpec {
+			g.seq++
+			b := &BatchSpec{}
+			for i := 0; i < n; i++ {
+				kv := KV{K: []byte(fmt.Sprintf("w%05d", (from+i)*3))}
+				switch x := r.Intn(20); {
+				case g.merges && x < 13:
+					kv.Op, kv.V = "merge", []byte(fmt.Sprintf("m%d", g.seq))
+				case x < 18:
+					kv.Op, kv.V = "set", []byte(fmt.Sprintf("v%d.%d", g.seq, i))
+				default:
+					kv.Op = "del"
+				}
+				b.Ops = append(b.Ops, kv)
+			}
+			return b
+		}
+		n1 := pick(r, []int{257, 300, 513, 700})
+		c.Prog = append(c.Prog, Op{Kind: "batch", B: wideBatch(n1, 0)})
+		if c.Opts.Backing != "mem" && r.Chance(0.7) {
+			c.Prog = append(c.Prog, Op{Kind: "drain"})
+		}
+		if r.Chance(0.5) {
+			c.Prog = append(c.Prog, Op{Kind: "batch", B: wideBatch(pick(r, []int{40, 257, 300}), n1/2)})
+			if c.Opts.Backing != "mem" && r.Chance(0.5) {
+				c.Prog = append(c.Prog, Op{Kind: "drain"})
+			}
+		}
+		c.MaxSteps *= 2
+	}
 	n := 4 + r.Intn(cfg.maxOps)
 	longHist := !partial && cfg.longHist > 0 && store && r.Chance(cfg.longHist)
 	if longHist {
@@ -614,7 +719,7 @@ func genSingle(c *Case, r *simrt.Rand, cfg genCfg) {
 	if c.Opts.MergerIdleRunTimeoutMS > 0 {
 		ws = append(ws, w{"clock", cfg.clockW})
 	}
-	ws = append(ws, w{"snap", cfg.snapW}, w{"iter", cfg.iterW})
+	ws = append(ws, w{"snap", cfg.snapW}, w{"iter", cfg.iterW}, w{"stall", cfg.stallW})
 	if g.merges && c.Opts.Backing != "mapll" {
 		ws = append(ws, w{"getErr", cfg.getErrW})
 	}
@@ -670,12 +775,15 @@ func genSingle(c *Case, r *simrt.Rand, cfg genCfg) {
 			case nsnap == 0 || y < 4:
 				kinds := []string{"coll", "coll", "iter"}
 				if store {
-					kinds = append(kinds, "store", "store")
+					kinds = append(kinds, "store", "store", "storeIter")
 				}
 				if g.kids {
 					kinds = append(kinds, "child", "child")
 				}
 				op := Op{Kind: "snapOpen", S: pick(r, kinds), N: r.Intn(4)}
+				if op.S == "iter" || op.S == "storeIter" {
+					op.Flag = r.Chance(0.4) // the snapshot is closed right away, the iterator stays
+				}
 				if g.kids {
 					op.K = []byte(pick(r, g.names))
 				}
@@ -691,6 +799,8 @@ func genSingle(c *Case, r *simrt.Rand, cfg genCfg) {
 			default:
 				c.Prog = append(c.Prog, Op{Kind: "snapClose", N: r.Intn(nsnap)})
 			}
+		case "stall":
+			c.Prog = append(c.Prog, Op{Kind: "stallMerger", N: pick(r, []int{300, 3000, 10000})})
 		case "bgRefuse":
 			c.Prog = append(c.Prog, Op{Kind: "bgRefuse", N: r.Intn(2)})
 		case "getErr":
